@@ -258,7 +258,7 @@ def _convert_root_to_candidate(
         closest_point_line, closest_point_circle = _line_circle_closest_points(
             old_line_point, line_direction, center, radius, normal, t)
     else:
-        u = pr.perpendicular_to_vector(normal)
+        u = norm_vector(pr.perpendicular_to_vector(normal))
         closest_point_line = center
         closest_point_circle = center + radius * u
     diff = closest_point_line - closest_point_circle
@@ -295,7 +295,7 @@ def _case_line_and_normal_parallel(
         # The line is center + t * normal, so the circle center is the
         # closest point for the line and all circle points are equidistant
         # from it.
-        u = pr.perpendicular_to_vector(normal)
+        u = norm_vector(pr.perpendicular_to_vector(normal))
         closest_point_line = center
         closest_point_circle = center + radius * u
     return closest_point_line, closest_point_circle
